@@ -193,11 +193,10 @@ class Scenario:
             kw["initializer"] = tasks.initializer
             kw["initargs"] = ("mark", tuple(c.get("init_fail", ())))
         self._roles()
-        if c.get("job_reducers") or c.get("result_reducers"):
-            if c.get("job_reducers"):
-                kw["job_reducers"] = {tasks.Tagged: tasks.make_reducer(c["job_reducers"])}
-            if c.get("result_reducers"):
-                kw["result_reducers"] = {tasks.Tagged: tasks.make_reducer(c["result_reducers"])}
+        if c.get("job_reducers") is not None:
+            kw["job_reducers"] = tasks.reducers(c["job_reducers"])
+        if c.get("result_reducers") is not None:
+            kw["result_reducers"] = tasks.reducers(c["result_reducers"])
         # the machine's CPU count is an input of the reusable executor (its call queue has 2 * cpu_count() + 1 slots)
         global _REAL_CPU_COUNT
         if _REAL_CPU_COUNT is None:
@@ -292,7 +291,11 @@ class Scenario:
                   old_shutdown=bool(old is not None and old._flags.shutdown))
             try:
                 self._roles()
+                kw = dict(kw)
                 tmo = kw.pop("timeout", self.scn["exec"].get("timeout", 10))
+                for rk in ("job_reducers", "result_reducers"):
+                    if rk in kw:
+                        kw[rk] = tasks.reducers(kw[rk])
                 try:
                     ne = ru.get_reusable_executor(max_workers=op[1], timeout=tmo, context=self.scn.get("ctx") or _ctx(), **kw)
                 finally:
@@ -411,6 +414,7 @@ class Policy:
         self.kind = spec.get("kind", "random")
         self.tp = spec.get("tp", 0.0)            # probability of firing a short timeout when one is possible
         self.pcrash = spec.get("pcrash", 0.0)
+        self.crash_code = spec.get("crash_code", -11)        # exit status of a worker killed by the environment (-n = signal n)
         self.max_crash = spec.get("max_crash", 0)
         self.crash_at = list(spec.get("crash_at", []))    # [{"label": "...", "role": "W", "nth": 1}]
         self.prio = {}
@@ -462,7 +466,7 @@ class Policy:
             ws = sorted((r for r in S.ready() if r["proc"] != "parent" and r["role"].startswith("W")), key=lambda r: r["name"])
             if ws:
                 r = self.rng.choice(ws)
-                esim.crash(r["proc"], -11)
+                esim.crash(r["proc"], self.crash_code)
                 S.decisions.append(("ENV", "crash %s at %s" % (r["name"], r["label"]), "ok"))
                 self.ncrash += 1
                 return True
